@@ -24,8 +24,8 @@ func verifScanCSV(cfg CSVInputConfig, data []byte, k int) (rows []verifCSVRow, n
 	r := &verifChunkReader{chunks: [][]byte{data[:k], data[k:]}}
 	sc := p.newScanner(r, make([]byte, 16))
 	for sc.Scan() {
-		row := make([]string, len(p.fields))
-		copy(row, p.fields)
+		row := make([]string, len(p.csvFields))
+		copy(row, p.csvFields)
 		rows = append(rows, verifCSVRow{row, sc.Text()})
 	}
 	return rows, p.fieldNames
@@ -167,6 +167,9 @@ func VerifC08Chunk() {
 func VerifC08BOM() {
 	n := verifIntRange(0, verifBound(3, 5))
 	body := verifBytes(n)
+	if n >= 3 {
+		verifAssume(!(body[0] == 0xEF && body[1] == 0xBB && body[2] == 0xBF)) // only one leading BOM is ignored
+	}
 	data := append([]byte{0xEF, 0xBB, 0xBF}, body...)
 	k := verifIntRange(0, n+3)
 	cfg := CSVInputConfig{Separator: ','}
